@@ -1,5 +1,5 @@
 /* C09 harness: run MPSolve's parsers / tokenizer pieces on arbitrary bytes, one
- * forked child per case (ASan+UBSan build, 5 s alarm), and print one canonical
+ * forked child per case (ASan+UBSan build, 5 s CPU limit + 60 s wall alarm), and print one canonical
  * outcome line per case.
  *
  *   c09_parse batch <listfile> <tmpdir>
@@ -32,8 +32,12 @@
 #include <sys/types.h>
 #include <sys/stat.h>
 #include <fcntl.h>
+#include <ctype.h>
+#include <sys/resource.h>
 
 #define C09_ALARM 5
+
+static FILE *RES;   /* outcome line; libmps (flex ECHO, debug) may write to stdout itself */
 
 static unsigned char *
 read_all (const char *path, size_t *len)
@@ -112,23 +116,23 @@ report_parse (mps_context *ctx, mps_polynomial *p)
   char *msg = flag ? mps_context_error_msg (ctx) : NULL;
 
   if (p && !flag)
-    printf ("POLY %s deg=%d structure=%d density=%d\n", p->type_name ? p->type_name : "?", p->degree,
+    fprintf (RES, "POLY %s deg=%d structure=%d density=%d\n", p->type_name ? p->type_name : "?", p->degree,
             (int)p->structure, (int)p->density);
   else if (!p && flag && msg)
     {
-      printf ("ERR ");
-      put_escaped (stdout, msg);
-      printf ("\n");
+      fprintf (RES, "ERR ");
+      put_escaped (RES, msg);
+      fprintf (RES, "\n");
     }
   else if (!p && flag)
-    printf ("BAD flag-without-message\n");
+    fprintf (RES, "BAD flag-without-message\n");
   else if (!p)
-    printf ("BAD null-without-flag\n");
+    fprintf (RES, "BAD null-without-flag\n");
   else
     {
-      printf ("BAD poly-with-flag ");
-      if (msg) put_escaped (stdout, msg);
-      printf ("\n");
+      fprintf (RES, "BAD poly-with-flag ");
+      if (msg) put_escaped (RES, msg);
+      fprintf (RES, "\n");
     }
 }
 
@@ -190,7 +194,7 @@ run_case (const char *mode, const char *path)
           free (tok);
           cnt++;
         }
-      printf ("TOKENS %ld %s\n", cnt, out);
+      fprintf (RES, "TOKENS %ld %s\n", cnt, out);
       mps_input_buffer_free (buf);
     }
   else if (!strcmp (mode, "optline"))
@@ -199,23 +203,23 @@ run_case (const char *mode, const char *path)
       char *line = malloc (l + 1);      /* exact size: line[-1] and line[l+1] are outside */
       memcpy (line, bytes, l + 1);
       if (!strchr (line, ';'))
-        printf ("NOSEMI\n");
+        fprintf (RES, "NOSEMI\n");
       else
         {
           mps_input_option o = mps_parse_option_line (ctx, line, l);
           int flag = mps_context_has_errors (ctx);
-          printf ("OPT flag=%s value=", flag_name (o.flag));
-          if (o.value) put_hex (stdout, o.value, strlen (o.value)); else printf ("-");
-          printf (" err=%d msg=", flag);
-          if (flag) { char *m = mps_context_error_msg (ctx); if (m) put_escaped (stdout, m); }
-          printf ("\n");
+          fprintf (RES, "OPT flag=%s value=", flag_name (o.flag));
+          if (o.value) put_hex (RES, o.value, strlen (o.value)); else fprintf (RES, "-");
+          fprintf (RES, " err=%d msg=", flag);
+          if (flag) { char *m = mps_context_error_msg (ctx); if (m) put_escaped (RES, m); }
+          fprintf (RES, "\n");
         }
     }
   else if (!strcmp (mode, "skipc"))
     {
       FILE *f = file_of_bytes (bytes, n);
       mps_skip_comments (f);
-      printf ("SKIP pos=%ld\n", ftell (f));
+      fprintf (RES, "SKIP pos=%ld\n", ftell (f));
       fclose (f);
     }
   else if (!strcmp (mode, "fmt"))
@@ -225,16 +229,16 @@ run_case (const char *mode, const char *path)
       fake.line_number = 7;
       mps_raise_parsing_error (ctx, &fake, (const char *)bytes, "C09MSG");
       char *m = mps_context_error_msg (ctx);
-      printf ("MSG ");
-      if (m) put_escaped (stdout, m);
-      printf ("\n");
+      fprintf (RES, "MSG ");
+      if (m) put_escaped (RES, m);
+      fprintf (RES, "\n");
     }
   else
     {
       fprintf (stderr, "unknown mode %s\n", mode);
       return 3;
     }
-  fflush (stdout);
+  fflush (RES);
   return 0;
 }
 
@@ -260,6 +264,7 @@ summarise_san (const char *errpath, char *out, size_t outsz)
           char a[40] = "", b[40] = "", c[40] = "";
           sscanf (p + 15, "%39s %39s %39s", a, b, c);
           snprintf (kind, sizeof kind, "ubsan-%s-%s-%s", a, b, c);
+          { char *q = kind, *w = kind; for (; *q; q++) if (isalnum ((unsigned char)*q) || *q == '-') *w++ = *q; *w = 0; }
           have_kind = 1;
         }
       if (!strncmp (line, "READ of size", 12)) strcpy (acc, "READ");
@@ -268,7 +273,7 @@ summarise_san (const char *errpath, char *out, size_t outsz)
         {
           char name[128];
           if (sscanf (p + 4, "%127s", name) == 1
-              && (strstr (line, "/src/libmps/") || !strncmp (name, "mps_", 4)
+              && (strstr (line, "src/libmps/") || !strncmp (name, "mps_", 4)
                   || !strncmp (name, "build_equivalent", 16) || !strncmp (name, "yy", 2)))
             {
               strcpy (fn, name);
@@ -283,6 +288,7 @@ summarise_san (const char *errpath, char *out, size_t outsz)
 int
 main (int argc, char **argv)
 {
+  RES = stdout;
   if (argc >= 4 && !strcmp (argv[1], "one"))
     return run_case (argv[2], argv[3]);
 
@@ -309,11 +315,16 @@ main (int argc, char **argv)
         {
           int fo = open (outp, O_WRONLY | O_CREAT | O_TRUNC, 0600);
           int fe = open (errp, O_WRONLY | O_CREAT | O_TRUNC, 0600);
-          dup2 (fo, 1); dup2 (fe, 2);
-          close (fo); close (fe);
-          alarm (C09_ALARM);
+          int dn = open ("/dev/null", O_WRONLY);
+          RES = fdopen (fo, "w");
+          dup2 (dn, 1); dup2 (fe, 2);
+          close (dn); close (fe);
+          /* 5 s of CPU time (a loaded machine must not turn into a verdict), 60 s wall as a backstop */
+          struct rlimit rl = { C09_ALARM, C09_ALARM + 2 };
+          setrlimit (RLIMIT_CPU, &rl);
+          alarm (60);
           int rc = run_case (mode, path);
-          fflush (stdout);
+          fflush (RES);
           _exit (rc);
         }
       int st = 0;
@@ -333,8 +344,30 @@ main (int argc, char **argv)
       }
       if (WIFSIGNALED (st))
         {
-          if (WTERMSIG (st) == SIGALRM) snprintf (status, sizeof status, "TIMEOUT");
-          else snprintf (status, sizeof status, "SIG %d", WTERMSIG (st));
+          if (WTERMSIG (st) == SIGALRM || WTERMSIG (st) == SIGXCPU || WTERMSIG (st) == SIGKILL) snprintf (status, sizeof status, "TIMEOUT");
+          else
+            {
+              /* an abort usually comes with a reason on stderr (uncaught C++ exception, GMP) */
+              char why[200] = "", l2[1024] = "";
+              FILE *fe2 = fopen (errp, "r");
+              if (fe2)
+                {
+                  while (fgets (l2, sizeof l2, fe2))
+                    {
+                      char *q;
+                      if ((q = strstr (l2, "throwing an instance of '")))
+                        { snprintf (why, sizeof why, "uncaught-%s", q + 25); }
+                      else if ((q = strstr (l2, "what():")) && strlen (why) < 150)
+                        { strncat (why, q + 7, 40); }
+                      else if (!why[0] && (strstr (l2, "GNU MP") || !strncmp (l2, "gmp:", 4)))
+                        { snprintf (why, sizeof why, "%s", l2); }
+                    }
+                  if (!why[0]) snprintf (why, 60, "%s", l2);     /* last line of stderr */
+                  fclose (fe2);
+                }
+              { char *q = why, *w = why; for (; *q; q++) if (isalnum ((unsigned char)*q) || *q == '-' || *q == '_' || *q == ':') *w++ = *q; *w = 0; }
+              snprintf (status, sizeof status, "SIG %d %s", WTERMSIG (st), why[0] ? why : "-");
+            }
         }
       else if (WEXITSTATUS (st) == 97 || WEXITSTATUS (st) == 98)
         {
